@@ -771,6 +771,84 @@ Proof.
   rewrite A3 in B3. inversion B3; subst. congruence.
 Qed.
 
+
+(* a verified transaction is the block's transaction at that index, or a collision is exhibited *)
+Theorem verified_tx_in_block headers st raw h arg net raws r :
+  t_verified st = false ->
+  t_verified (mv_state (maybe_verify headers st raw h arg net)) = true ->
+  merkle_root (map dsha raws) = Some r ->
+  header_root_raw (nth (Z.to_nat h) headers []) = r ->
+  exists brs pos br,
+    m_merkle (effective arg net) = Some brs /\ m_pos (effective arg net) = Some pos /\
+    decode_branches brs = Some br /\
+    forall j, (j < length raws)%nat ->
+      (pos mod 2 ^ Z.of_nat (length br) = Z.of_nat j)%Z ->
+      same_widths br (branch (map dsha raws) j) ->
+      (dsha raw = dsha (nth j raws []) /\ br = branch (map dsha raws) j) \/
+      exists x y, collision br (branch (map dsha raws) j) pos (Z.of_nat j) (dsha raw) (dsha (nth j raws [])) = Some (x, y)
+                  /\ x <> y /\ dsha x = dsha y.
+Proof.
+  intros Hst Hv Hroot Hh.
+  apply verified_iff in Hv; [|exact Hst].
+  destruct Hv as [_ [brs [pos [br [E1 [E2 [E3 E4]]]]]]].
+  exists brs, pos, br. repeat split; try assumption.
+  intros j Hj Hp Hw.
+  assert (Hj' : (j < length (map dsha raws))%nat) by (rewrite map_length; exact Hj).
+  assert (Hn : nth j (map dsha raws) [] = dsha (nth j raws [])).
+  { rewrite (nth_indep _ [] (dsha [])) by exact Hj'. apply map_nth. }
+  rewrite <- Hn.
+  apply (verified_member (map dsha raws) br pos (dsha raw) r j); try assumption.
+  rewrite E4. exact Hh.
+Qed.
+
+(* ================= the duplicated last node: same root for l and l ++ [last l] ================= *)
+Lemma root_fuel_indep : forall f1 f2 l, (length l <= S f1)%nat -> (length l <= S f2)%nat ->
+  root_fuel f1 l = root_fuel f2 l.
+Proof.
+  induction f1 as [|f1 IH]; intros f2 l H1 H2.
+  - destruct l as [|a [|b t]]; cbn [length] in *; try lia; destruct f2; reflexivity.
+  - destruct l as [|a [|b t]]; try (destruct f2; reflexivity).
+    destruct f2 as [|f2]; [cbn [length] in H2; lia|].
+    rewrite !root_fuel_step.
+    set (l := a :: b :: t) in *.
+    pose proof (pair_up_length_le l).
+    assert (length l = S (S (length t))) by reflexivity.
+    apply IH; lia.
+Qed.
+
+Lemma last_cons2 (a b : bytes) r : r <> [] -> last (a :: b :: r) [] = last r [].
+Proof. intro H. destruct r; [congruence | reflexivity]. Qed.
+
+Lemma pair_up_dup_last l : Nat.odd (length l) = true -> pair_up (l ++ [last l []]) = pair_up l.
+Proof.
+  induction l as [| a | a b r IH] using pair_ind; intro H.
+  - discriminate.
+  - reflexivity.
+  - change (Nat.odd (length (a :: b :: r))) with (Nat.odd (length r)) in H.
+    assert (Hr : r <> []) by (intro E; subst; discriminate).
+    rewrite last_cons2 by exact Hr.
+    change ((a :: b :: r) ++ [last r []]) with (a :: b :: (r ++ [last r []])).
+    cbn [C08.pair_up]. f_equal. apply IH. exact H.
+Qed.
+
+Theorem dup_last_same_root l : Nat.odd (length l) = true -> (3 <= length l)%nat ->
+  merkle_root (l ++ [last l []]) = merkle_root l.
+Proof.
+  intros Ho H3. unfold C08.merkle_root. rewrite app_length. cbn [length].
+  destruct l as [|a [|b t]]; cbn [length] in H3; try lia.
+  replace (length (a :: b :: t) + 1)%nat with (S (length (a :: b :: t))) by lia.
+  change ((a :: b :: t) ++ [last (a :: b :: t) []]) with (a :: b :: (t ++ [last (a :: b :: t) []])).
+  rewrite root_fuel_step.
+  change (a :: b :: (t ++ [last (a :: b :: t) []])) with ((a :: b :: t) ++ [last (a :: b :: t) []]).
+  rewrite pair_up_dup_last by exact Ho.
+  change (length (a :: b :: t)) with (S (S (length t))).
+  rewrite root_fuel_step.
+  pose proof (pair_up_length_le (a :: b :: t)) as Hle.
+  change (length (a :: b :: t)) with (S (S (length t))) in Hle.
+  assert (Ht : (1 <= length t)%nat) by lia.
+  apply root_fuel_indep; unfold bytes in *; lia.
+Qed.
+
 End Merkle.
 
 (* ================= toy hashes for the non-vacuity examples ================= *)
